@@ -149,8 +149,8 @@ CHECKS = {
         "wherever carrier boundaries fall; carrier hypotheses discharged for the packaged configuration by decide). Tied "
         "to /repo by differential execution over every single "
         "bit, every pair, boundary/every length, 6 codecs x 2 bitmap forms, packaged + generated configurations. In addition a SOURCE TIE for the bitmap conversion: harness/pytrans.py translates the current Python text of BitArray.tolist / fromlist (which go through one big integer) into Lean (Gen/Src.lean) on every run and lean/Cardutil/SrcTie/Bits.lean proves, for all inputs, that the translation equals the byte-by-byte model (tolist_eq, fromlist_eq) and restates the bitmap clause for the translated code (C01_source_bits_roundtrip, C02_source_bitmap, C02_source_bitmap_read); when the source changes so that this no longer checks, the check runs its thorough generators (time-boxed) before answering (the correspondence remains the deciding tie).",
-        "Trusted: Lean kernel; standard axioms; hand-written model; strptime(strftime d)=d is a hypothesis of WFField.date "
-        "(validated differentially); DE43 keys applied by Python's re in the harness.",
+        "Trusted: Lean kernel; standard axioms; hand-written model; strptime(strftime d)=d, a hypothesis of WFField.date, is PROVED for the "
+        "Lean model of strptime (Lemmas/Time.lean strptime_strftime, C01_date_wellformed) for every date-time expressible in the format; the model of strptime itself is validated differentially; DE43 keys applied by Python's re in the harness.",
         "DESIGN.md §8 C01"),
     'C02': (
         "Lean 4 theorems (absolute layout: per-element rendering relation, bitmap flags, element order, refusal of over-long variable values, hex bitmap alphabet; reading direction via C01) + byte-for-byte / key-for-key comparison with an independent reference codec",
